@@ -306,8 +306,28 @@ pub fn gen(a: &Args) -> Vec<String> {
             let i = if !relevant.is_empty() && rng.chance(4, 5) { *rng.pick(&relevant) } else { rng.below(all.len() as u64) as usize };
             if !chosen.contains(&i) { chosen.push(i); pats.push(text_sx(all[i].0)); }
         }
+        // diagonal terms: ONE slot where a multi-pattern names TWO pattern slots (`?a == (var $1), ?b == (var $2)` must not match
+        // `(h (var $x) (var $x))`; `(lam $1 ?b), ?b == (var $2)` must not match the identity)
+        let mut forced: Vec<usize> = vec![];
+        if rng.chance(1, 2) {
+            let x = rng.range(1, 3);
+            let v = |s: u64| rt(5, vec![slot_arg(s)], vec![]);
+            match rng.below(4) {
+                0 => { add(rt(7, vec![null_app(), null_app()], vec![v(x), v(x)]), &mut terms, &mut ops, &mut nadd); forced.push(8); }
+                1 => { add(rt(8, vec![lst(vec![sym("b"), num(x), null_app()])], vec![v(x)]), &mut terms, &mut ops, &mut nadd); forced.push(24); }
+                2 => { let f = rt(0, vec![slot_arg(x), slot_arg(x)], vec![]); add(rt(7, vec![null_app(), null_app()], vec![f.clone(), f]), &mut terms, &mut ops, &mut nadd); forced.push(3); forced.push(22); }
+                _ => { add(rt(7, vec![null_app(), null_app()], vec![v(x), v(x)]), &mut terms, &mut ops, &mut nadd);
+                       add(rt(7, vec![null_app(), null_app()], vec![v(x), v(x + 3)]), &mut terms, &mut ops, &mut nadd); forced.push(8); forced.push(7); }
+            }
+        }
         let nm = rng.range(1, 3);
         let mut mpats = vec![sym("mpats")]; let mut chosen: Vec<usize> = vec![];
+        for i in forced {
+            if chosen.contains(&i) { continue; } chosen.push(i);
+            let mut m = vec![sym("mp")];
+            for (v, n) in MPATS[i] { m.push(lst(vec![sym("eqn"), text_sx(v), text_sx(n)])); }
+            mpats.push(lst(m));
+        }
         for _ in 0..nm {
             let i = rng.below(MPATS.len() as u64) as usize;
             if chosen.contains(&i) { continue; } chosen.push(i);
